@@ -8,6 +8,7 @@ import (
 	"math/rand"
 	"os"
 	"path/filepath"
+	"strings"
 	"testing"
 	"time"
 
@@ -100,6 +101,9 @@ func buildPack(dm string, partID uint64, entries []trace.Ev) []byte {
 		en.SetKey(e["key"].(string))
 		en.SetValue([]byte(e["val"].(string)))
 		en.SetTimestamp(int64(1000 + e["ts"].(int)))
+		if strings.HasSuffix(e["val"].(string), "+ttl") {
+			en.SetTTL(time.Now().Add(time.Hour).UnixMilli()) // a copy with an expiry far in the future
+		}
 		st.Put(partitions.HKey(dm, e["key"].(string)), en)
 	}
 	data, _, err := st.(*kvstore.KVStore).TransferIterator().Export()
@@ -230,7 +234,8 @@ func TestC06(t *testing.T) {
 		nf := 2 + rng.Intn(2)
 		base := make([][]trace.Ev, nf)
 		for i := range base {
-			base[i] = []trace.Ev{{"k": "k1", "ts": rng.Intn(3), "val": fmt.Sprintf("f%d", i+1)}, {"k": "k2", "ts": rng.Intn(3), "val": fmt.Sprintf("f%d", i+1)}}
+			sfx := func() string { return []string{"", "+ttl"}[rng.Intn(2)] }
+			base[i] = []trace.Ev{{"k": "k1", "ts": rng.Intn(3), "val": fmt.Sprintf("f%d", i+1) + sfx()}, {"k": "k2", "ts": rng.Intn(3), "val": fmt.Sprintf("f%d", i+1) + sfx()}}
 		}
 		for _, perm := range perms(nf) {
 			for rep := -1; rep < nf; rep++ {
@@ -271,6 +276,9 @@ func TestC06(t *testing.T) {
 					if ok {
 						ev["ts"] = int(e.Timestamp - 1000)
 						ev["val"] = string(e.Value)
+						if (e.TTL != 0) != strings.HasSuffix(ev["val"].(string), "+ttl") {
+							ev["val"] = ev["val"].(string) + " with the expiry of another copy"
+						}
 					}
 					res = append(res, ev)
 				}
